@@ -56,6 +56,7 @@ def grammar_roles(I, w):
         return cache
     gram = I.call(I.global_name("formulas", "formula_grammar"), [w.table], {})
     G = peg.Grammar(gram, I)
+    w._roles_grammar = G
     fired = {}
     for role, text in PROBES:
         G.trace = []
@@ -132,6 +133,79 @@ def action(I, w, name):
     return roles[name]
 
 
+def action_tokens(I, w, name, text, numbers=(), formulas=(), atoms=()):
+    """The token list the action with role *name* receives when the grammar parses *text* (its last firing), with the
+    numbers listed in *numbers* ({value: replacement}) and the Formula objects (in order of appearance) replaced.  The
+    protocol between the grammar and its actions (groups, records, named tuples ...) is the repository's own business: the
+    rules take the tokens from the grammar instead of assuming their layout."""
+    from ptstat import peg
+    from ptstat.symlib import NTuple
+    fn = action(I, w, name)
+    G = w._roles_grammar          # the grammar whose actions were given their roles (actions are closures of one grammar)
+    G.tok_trace = []
+    try:
+        try:
+            G.parse(text, all_=True)
+        except (SymRaise, AnalysisError):
+            import os
+            if os.environ.get("VERIF_DEBUG"): import traceback; traceback.print_exc()
+        got = [t for f, t in G.tok_trace if _same_action(f, fn)]
+    finally:
+        G.tok_trace = None
+    if not got:
+        raise AnalysisError(f"the action with the role of {name} does not fire on {text!r}")
+    forms = list(formulas)
+    nums = {sp.sympify(k): v for k, v in dict(numbers).items()}
+    used = set()
+
+    def is_formula(v):
+        return isinstance(v, SymObj) and v.cls is not None and any(k.name == "Formula" for k in [v.cls] + list(v.cls.bases))
+
+    amap = list(dict(atoms).items()) if atoms else []
+
+    def sub(v):
+        if isinstance(v, SymObj):
+            for k_, rep_ in amap:
+                if v is k_:
+                    return rep_
+            if v.cls is not None and v.cls.name in ("Element", "Isotope", "Ion", "PeriodicTable"):
+                return v
+        if is_formula(v):
+            if not forms:
+                raise AnalysisError(f"more formulas in the tokens of {text!r} than replacements")
+            return forms.pop(0)
+        if isinstance(v, NTuple):
+            t = NTuple([sub(x) for x in v])
+            t._fields, t._tname = v._fields, v._tname
+            if getattr(v, "_cls", None) is not None:
+                t._cls = v._cls
+            return t
+        if isinstance(v, peg.Toks):
+            return peg.Toks([sub(x) for x in v], {k: sub(x) for k, x in v.named.items()})
+        if isinstance(v, list):
+            return [sub(x) for x in v]
+        if isinstance(v, tuple):
+            return tuple(sub(x) for x in v)
+        if isinstance(v, SymObj) and v.cls is not None:
+            d_ = I.heap[v.id]
+            for k in list(d_):
+                d_[k] = sub(d_[k])          # a record object built by a lower action: replaced in place (it is ours alone)
+            return v
+        if not isinstance(v, (str, bool)) and v is not None:
+            try:
+                e = sp.sympify(v)
+            except (sp.SympifyError, TypeError):
+                return v
+            if e in nums:
+                used.add(e)
+                return nums[e]
+        return v
+    out = sub(got[-1])
+    if forms or set(nums) - used:
+        raise AnalysisError(f"tokens of {text!r} for {name}: {len(forms)} formulas / numbers {sorted(map(str, set(nums) - used))} not found")
+    return out
+
+
 def action_site(ctx, I, w, name):
     """where the action with that role is defined (for reports)"""
     fn = action(I, w, name)
@@ -206,22 +280,28 @@ def run(ctx):
     pairs = [(q[0], a), (q[1], O)]
     cc = action(I, w, "convert_compound")
     s_cc = action_site(ctx, I, w, "convert_compound")
-    r = I.call(cc, ["<s>", 0, list(pairs) + [None]], {})
+    # the tokens are what the grammar hands the action for 'Fe3O5', 'Fe3O5@7n', 'Fe3O5@7i' and 'Fe3O5@7', with the counts, the
+    # density and the first atom replaced by the generic ones
+    ctoks = lambda text: action_tokens(I, w, "convert_compound", text, {3: q[0], 5: q[1], 7: d} if "@" in text else {3: q[0], 5: q[1]},
+                                       atoms={A["element"]: a})
+    r = I.call(cc, ["<s>", 0, ctoks("Fe3O5")], {})
     ctx.check(I.getattr(r, "density") is None, "R2", "no '@' tag: density stays unknown", f"{_s(I.getattr(r, 'density'))}", s_cc)
     dict_eq(ctx, "R2", "convert_compound keeps the parsed pairs", I.getattr(r, "atoms"), comp, s_cc)
-    r = I.call(cc, ["<s>", 0, list(pairs) + [d, "n"]], {})
+    r = I.call(cc, ["<s>", 0, ctoks("Fe3O5@7n")], {})
     eq(ctx, "R2", "'@dn' tag is the natural density", I.getattr(r, "density"), d / ratio, s_cc)
-    r = I.call(cc, ["<s>", 0, list(pairs) + [d, "i"]], {})
-    eq(ctx, "R2", "'@di' / '@d' tag is the isotopic density", I.getattr(r, "density"), d, s_cc)
+    r = I.call(cc, ["<s>", 0, ctoks("Fe3O5@7i")], {})
+    eq(ctx, "R2", "'@di' tag is the isotopic density", I.getattr(r, "density"), d, s_cc)
+    r = I.call(cc, ["<s>", 0, ctoks("Fe3O5@7")], {})
+    eq(ctx, "R2", "'@d' tag is the isotopic density", I.getattr(r, "density"), d, s_cc)
     cmx = action(I, w, "convert_mixture")
     s_cm = action_site(ctx, I, w, "convert_mixture")
     for tag, wantd in (("n", d / ratio), ("i", d)):
         mix = I.call(fm, [dict(comp)], {"density": sp.Symbol("d0", positive=True)})
-        r = I.call(cmx, ["<s>", 0, [mix, d, tag]], {})
+        r = I.call(cmx, ["<s>", 0, action_tokens(I, w, "convert_mixture", f"(30wt% Fe // Co)@7{tag}", {7: d}, [mix])], {})
         eq(ctx, "R2", f"(mixture)@d{tag} sets the {'natural' if tag == 'n' else 'isotopic'} density",
            I.getattr(r, "density"), wantd, s_cm)
     mix = I.call(fm, [dict(comp)], {"density": d})
-    r = I.call(cmx, ["<s>", 0, [mix, None]], {})
+    r = I.call(cmx, ["<s>", 0, action_tokens(I, w, "convert_mixture", "(30wt% Fe // Co)", {}, [mix])], {})
     eq(ctx, "R2", "(mixture) without tag keeps the computed density", I.getattr(r, "density"), d, s_cm)
     # single-atom default
     for kind in w.KINDS:
